@@ -59,6 +59,33 @@ def stable_key(name: str, src, qual: str) -> str:
 
 
 _SRC_CACHE: dict = {}
+_BASE_STATE: dict = {}
+
+
+def _reset_logic_state():
+    """Every (function, family, variant) task starts from the same logical state -- fresh-name counter, spec-function
+    tables and their axioms, string constants -- whatever the worker process verified before: the VCs of a task, and
+    with them the solver's behaviour, do not depend on how the pool happened to distribute the work."""
+    import itertools
+
+    from . import exprs
+    from . import logic as L
+
+    if not _BASE_STATE:
+        _BASE_STATE.update(
+            ctr=next(L._ctr), axioms=list(L.SPEC_AXIOMS), upk=dict(L._UPK), anc=dict(L._ANC), pre=dict(L._PRE), filt=dict(L._FILT), filtcb=list(L._FILTCB),
+            strs=dict(exprs.STR_CONSTS),
+        )
+    b = _BASE_STATE
+    L._ctr = itertools.count(b["ctr"] + 1)
+    L.SPEC_AXIOMS[:] = b["axioms"]
+    for d, k in ((L._UPK, "upk"), (L._ANC, "anc"), (L._PRE, "pre"), (L._FILT, "filt")):
+        d.clear()
+        d.update(b[k])
+    L._FILTCB[:] = b["filtcb"]
+    L._WF_CACHE.clear()
+    exprs.STR_CONSTS.clear()
+    exprs.STR_CONSTS.update(b["strs"])
 
 
 def _verify_one(args):
@@ -69,6 +96,7 @@ def _verify_one(args):
         from .source import Source
 
         load_contracts()
+        _reset_logic_state()
         if srcroot not in _SRC_CACHE:
             _SRC_CACHE[srcroot] = Source(srcroot)
         src = _SRC_CACHE[srcroot]
@@ -120,8 +148,14 @@ def verify_functions(quals, srcroot, tier):
     for q in quals:
         for fam, k in engine.n_variants(q):
             tasks.append((q, srcroot, tier, fam, k))
+    from .source import Source
+
+    if srcroot not in _SRC_CACHE:
+        _SRC_CACHE[srcroot] = Source(srcroot)  # parsed once here, inherited by every task process
     ctx = mp.get_context("fork")
-    with ctx.Pool(min(NPROC, len(tasks))) as pool:
+    # one fresh process per task (forked from this one): no task sees solver / term-table state left by another,
+    # so a verdict does not depend on how the pool distributes the work
+    with ctx.Pool(min(NPROC, len(tasks)), maxtasksperchild=1) as pool:
         parts = pool.map(_verify_one, tasks, chunksize=1)
     merged: dict = {}
     for r in parts:
